@@ -69,7 +69,7 @@ theorem spec_genname (env : PEnv) (md : Maildir) (flags : Option Bytes) (cs : Li
   | succ fuel ih =>
     unfold genname
     simp only [bind_eq, pure_eq, call_bind]
-    generalize (decimalInt env.now ++ [46] ++ decimal env.pid ++ [95] ++ decimal (count + 1) ++ [46] ++ env.host ++
+    generalize (decimalInt env.now ++ [46] ++ decimal env.pid ++ [95] ++ decimal ((count + 1) % gennameWrap) ++ [46] ++ env.host ++
           flags.getD []) = nm
     split
     · exact ⟨hg, hj, by intro _ _ h; cases h⟩
